@@ -182,7 +182,7 @@ class Serialized(Template[_SerializedTemplateArgs], AssignableType):
                 assert (
                     elem_type is raw._elemtype_
                 ), "elem type of source does not match elem type of target"
-                self._raw = _qualifier_[elem_type](raw._raw)
+                self._raw = _qualifier_[BitVector[bit_count]](raw._raw)
             elif raw is Null or raw is Full:
                 self._raw = _qualifier_[BitVector[bit_count]](BitVector[bit_count](raw))
             else:
